@@ -13,15 +13,18 @@ From Verif Require Import Base.Word Base.Outcome Base.FBits Gen.Consts Gen.Leaf
 Import ListNotations.
 Local Open Scope Z_scope.
 
-(* cbor, every integer item (both major types, every argument width, minimal or not, up to
-   2^64-1 and down to -2^64) into every integer destination kind: the stored value is the
-   item's value and lies in the kind's range *)
-Theorem C07_int_cbor : forall (k : kind) (bs : list Z) (x n : Z),
+(* C07_int — all four binary formats, every integer item of the format (cbor: both major
+   types, every argument width, minimal or not, 0 .. 2^64-1 and -1 .. -2^64; msgpack: fixint,
+   uint8-64, int8-64; binc: positive/negative 1-8 byte magnitudes, small ints, specials;
+   simple: positive/negative 1,2,4,8 byte magnitudes) into every integer destination kind
+   (int8..int64, int, uint8..uint64, uint, uintptr): if Decode returns no error, the stored
+   value is the item's mathematical value and lies in the destination's range *)
+Theorem C07_int : forall (f : binfmt) (k : kind) (bs : list Z) (x n : Z),
   bytes_ok bs -> is_int_kind k = true ->
-  decode cbor k bs = Ok x -> cbor_spec bs = Some (NInt n) ->
+  decode (drv f) k bs = Ok x -> spec f bs = Some (NInt n) ->
   x = n /\ kind_lo k <= x < kind_hi k.
-Proof. exact cbor_int_all. Qed.
-Print Assumptions C07_int_cbor.
+Proof. exact int_all. Qed.
+Print Assumptions C07_int.
 
 (* msgpack DecodeInt64 on every descriptor byte: integer families give exactly their value;
    a float64 item is accepted only when it is an integer (|x| < 2^52) and then stored
@@ -103,7 +106,7 @@ Proof. exact narrow_f32_ok. Qed.
 Print Assumptions C07_float32_overflow_partial.
 
 (* non-vacuity *)
-Example C07_int_cbor_nonvacuous :
+Example C07_int_nonvacuous :
   decode cbor KInt64 [27; 127; 255; 255; 255; 255; 255; 255; 255] = Ok (2 ^ 63 - 1)
   /\ cbor_spec [27; 127; 255; 255; 255; 255; 255; 255; 255] = Some (NInt (2 ^ 63 - 1))
   /\ decode cbor KInt64 [59; 127; 255; 255; 255; 255; 255; 255; 255] = Ok (- 2 ^ 63)
